@@ -27,12 +27,18 @@ def run_check(pid, root):
 
 
 def main(argv):
-    src = argv[0]
-    prefix = argv[1] if len(argv) > 1 else os.path.basename(os.path.dirname(src.rstrip('/')))
     run_tests = os.environ.get('RUN_TESTS') == '1'
     bad = 0
-    for diff in sorted(glob.glob(os.path.join(src, '*.diff'))):
-        name = '%s-%s' % (prefix, os.path.basename(diff)[:-5])
+    if argv[0] == 'all':          # every stored benign patch: /verif/benign/<name>/patch.diff
+        sel = argv[1:]
+        items = [(os.path.basename(os.path.dirname(d)), d) for d in sorted(glob.glob(os.path.join(VERIF, 'benign', '*', 'patch.diff')))]
+        items = [(n, d) for n, d in items if not sel or any(n.startswith(x) for x in sel)]
+        src = None
+    else:
+        src = os.path.abspath(argv[0])
+        prefix = argv[1] if len(argv) > 1 else os.path.basename(os.path.dirname(src.rstrip('/')))
+        items = [('%s-%s' % (prefix, os.path.basename(d)[:-5]), d) for d in sorted(glob.glob(os.path.join(src, '*.diff')))]
+    for name, diff in items:
         wt = '/tmp/wtv/benign-%s' % name
         sh('rm -rf %s; git -C /repo worktree prune; git -C /repo worktree add -q --detach %s HEAD' % (wt, wt))
         try:
@@ -59,7 +65,7 @@ def main(argv):
                     if l.startswith(('FINDING', 'ANALYSIS-ERROR')):
                         print('   ' + l[:300])
             keep = os.environ.get('KEEP')
-            if keep:
+            if keep and src:
                 d = os.path.join(VERIF, 'benign', name)
                 os.makedirs(d, exist_ok=True)
                 shutil.copy(diff, os.path.join(d, 'patch.diff'))
